@@ -10,6 +10,7 @@ import (
 	"fmt"
 	"go/ast"
 	"go/parser"
+	"go/printer"
 	"go/token"
 	"os"
 	"path/filepath"
@@ -72,6 +73,7 @@ func main() {
 		}
 	}
 	var rows []row
+	var leaks []string
 	nvars := 0
 	for _, p := range pkgs {
 		nvars += len(globals[p])
@@ -188,6 +190,67 @@ func main() {
 					}
 					return depth > 0
 				}
+				// returns reached while a lock taken in this function is still held and no deferred unlock will release it
+				// (Lock/Unlock are paired by the text of their receiver expression)
+				{
+					type ev struct {
+						pos      token.Pos
+						recv     string
+						lock     bool
+						deferred bool
+						ret      bool
+					}
+					var evs []ev
+					recvOf := func(c *ast.CallExpr) string {
+						if se, ok := c.Fun.(*ast.SelectorExpr); ok {
+							var b strings.Builder
+							printer.Fprint(&b, fset, se.X)
+							return b.String()
+						}
+						return "?"
+					}
+					ast.Inspect(fd.Body, func(n ast.Node) bool {
+						switch v := n.(type) {
+						case *ast.FuncLit:
+							return false
+						case *ast.DeferStmt:
+							if isLockCall(v.Call, "Unlock", "RUnlock") {
+								evs = append(evs, ev{v.Pos(), recvOf(v.Call), false, true, false})
+							}
+							return false
+						case *ast.CallExpr:
+							if isLockCall(v, "Lock", "RLock") {
+								evs = append(evs, ev{v.Pos(), recvOf(v), true, false, false})
+							} else if isLockCall(v, "Unlock", "RUnlock") {
+								evs = append(evs, ev{v.Pos(), recvOf(v), false, false, false})
+							}
+						case *ast.ReturnStmt:
+							evs = append(evs, ev{v.Pos(), "", false, false, true})
+						}
+						return true
+					})
+					sort.Slice(evs, func(i, j int) bool { return evs[i].pos < evs[j].pos })
+					held := map[string]int{}
+					deferredFor := map[string]int{}
+					for _, e := range evs {
+						switch {
+						case e.ret:
+							for r, n := range held {
+								if n-deferredFor[r] > 0 {
+									leaks = append(leaks, fmt.Sprintf("%s.%s: return while %s is locked", p, fname, r))
+								}
+							}
+						case e.lock:
+							held[e.recv]++
+						case e.deferred:
+							deferredFor[e.recv]++
+						default:
+							if held[e.recv] > 0 {
+								held[e.recv]--
+							}
+						}
+					}
+				}
 				add := func(q, name, kind string, pos token.Pos, sync string) {
 					rows = append(rows, row{q, name, names[p][f], p + "." + fname, kind, sync, fset.Position(pos).Line})
 				}
@@ -260,6 +323,23 @@ func main() {
 		}
 		sb.WriteString(fmt.Sprintf("  { pkg := %q, name := %q, site := \"%s:%d\", fn := %q, kind := %q, sync := %q }%s\n",
 			r.pkg, r.name, r.file, r.line, r.fn, r.kind, r.sync, sep))
+	}
+	sb.WriteString("]\n")
+	sort.Strings(leaks)
+	uniq := leaks[:0]
+	for i, l := range leaks {
+		if i == 0 || l != leaks[i-1] {
+			uniq = append(uniq, l)
+		}
+	}
+	leaks = uniq
+	sb.WriteString("\n/-- `return` statements of core, sys, cron, service reached while a mutex locked earlier in the same function is still\nlocked and no deferred unlock of it is pending (syntactic: Lock/Unlock paired by the text of their receiver, source order) -/\n")
+	sb.WriteString("def returnsUnderLock : List String := [")
+	for i, l := range leaks {
+		if i > 0 {
+			sb.WriteString(",")
+		}
+		sb.WriteString(fmt.Sprintf("\n  %q", l))
 	}
 	sb.WriteString("]\n")
 	if err := os.WriteFile(out, []byte(sb.String()), 0644); err != nil {
